@@ -98,6 +98,15 @@ pub struct FileSpec {
     pub has_op: bool,
 }
 
+/// the file an import line denotes (absolute, normalised)
+pub fn import_target_path(l: &ImportLine, paths: &[PathBuf]) -> PathBuf {
+    if l.dangling { PathBuf::from(format!("/p/missing{}.graphql", l.target)) } else { paths[l.target].clone() }
+}
+
+pub fn file_paths_of(paths: &[PathBuf], p: &str) -> Option<usize> {
+    paths.iter().position(|x| x.to_string_lossy() == p)
+}
+
 pub fn edge_to_line(e: Edge, j: usize) -> Option<ImportLine> {
     let [a, b] = frag_names(j);
     let names = match e {
@@ -686,5 +695,6 @@ pub fn run(env: &Env) -> i32 {
     if !open_graph_defect {
         rep.campaign("random-graphs", env.cases(80_000, 800_000), (10, 300), random_case);
     }
+    rep.merge_extra_evidence("loader_abi", "loader route (vh-loader C13)");
     rep.finish()
 }
